@@ -426,6 +426,12 @@ func fanOut(s *scratch, bin, outDir string, race bool, prop, tier string, seed u
 				if err == nil {
 					return
 				}
+				if ee, ok := err.(*exec.ExitError); ok && ee.ExitCode() == 98 {
+					if last := lastEnded(filepath.Join(outDir, fmt.Sprintf("progress.%d.log", k))); last >= 0 {
+						from = last + 1
+						continue
+					}
+				}
 				// the worker died: find the case it was in
 				idx, done := lastBegun(filepath.Join(outDir, fmt.Sprintf("progress.%d.log", k)))
 				if done || idx < 0 {
@@ -437,6 +443,13 @@ func fanOut(s *scratch, bin, outDir string, race bool, prop, tier string, seed u
 				code := -1
 				if ee, ok := err.(*exec.ExitError); ok {
 					code = ee.ExitCode()
+				}
+				if code == 98 {
+					// the worker finished a case, reported what it found and asked for a fresh process
+					if last := lastEnded(filepath.Join(outDir, fmt.Sprintf("progress.%d.log", k))); last >= 0 {
+						from = last + 1
+						continue
+					}
 				}
 				if code == 97 {
 					mu.Lock()
@@ -557,6 +570,22 @@ func lastBegun(progress string) (idx int, done bool) {
 		return -1, done
 	}
 	return idx, false
+}
+
+// lastEnded returns the index of the last case a worker completed.
+func lastEnded(progress string) int {
+	b, err := os.ReadFile(progress)
+	if err != nil {
+		return -1
+	}
+	last := -1
+	for _, l := range strings.Split(string(b), "\n") {
+		f := strings.Fields(l)
+		if len(f) >= 2 && f[0] == "E" {
+			last, _ = strconv.Atoi(f[1])
+		}
+	}
+	return last
 }
 
 // classifyDeath derives class and signature from how a worker process died.
